@@ -32,7 +32,7 @@ REACH = [("yamlpath/merger/merger.py", "_resolve_anchor_conflicts,_calc_unique_a
 SIZES = {"quick": 30000, "thorough": 800000}
 REQUIRED_COUNTERS = ["conflict_cases", "equal_value_cases", "reload_checked", "stop_refused", "equal_value_other_spelling_cases",
                      "rhs_defines_rename_target_name", "sequence_cases"]
-VALS = ["x", "y", "1", "2", "'x'", '"x"', "0x1", "'1'", '"y"', "0x2", "true"]
+VALS = ["x", "y", "1", "2", "'x'", '"x"', "0x1", "'1'", '"y"', "0x2", "true", "''", "false", "0.0"]     # falsy values too
 NAMES = ["A1", "A2", "A3"]
 EXTRA_NAMES = ["A1_1", "A2_1", "A1_2"]       # what a rename of A1 / A2 would like to call itself
 
@@ -45,6 +45,8 @@ def canon(text):
         return ("int", int(text, 16))
     if text.isdigit():
         return ("int", int(text))
+    if text.replace(".", "", 1).isdigit():
+        return ("float", float(text))
     if text in ("true", "false"):
         return ("bool", text == "true")
     return ("str", text)
@@ -55,8 +57,11 @@ MERGE_SAMPLE = [("deep", "all", "all", "unique"), ("deep", "unique", "deep", "un
 
 
 def gen(rng, extra_name=False):
-    """Tree with scalar anchors/aliases; returns (tree, {name: valuetext})."""
+    """Tree with scalar anchors/aliases; returns (tree, {name: valuetext}).  Mappings may themselves be anchored (under a
+    name no other document uses) and aliased: scalar anchors are then also found *inside* anchored containers."""
     defined = {}
+    cnames = []
+    ctag = "M%d" % rng.randrange(10 ** 6)
 
     def scalar():
         x = rng.random()
@@ -75,25 +80,53 @@ def gen(rng, extra_name=False):
         if depth >= 2 or x < 0.5:
             return scalar()
         if x < 0.8:
-            return ("map", [(k, node(depth + 1)) for k in rng.sample(KEYS, rng.randrange(1, 4))])
+            m = ("map", [(k, node(depth + 1)) for k in rng.sample(KEYS, rng.randrange(1, 4))])
+            if rng.random() < 0.25:
+                name = "%s_%d" % (ctag, len(cnames))
+                cnames.append(name)
+                return ("anc", name, m)
+            return m
         # list elements: scalars, or lists again (aliases inside an Array nested directly in an Array)
         return ("seq", [scalar() if rng.random() < 0.75 else ("seq", [scalar() for _ in range(rng.randrange(1, 3))])
                         for _ in range(rng.randrange(1, 4))])
-    t = ("map", [(k, node(1)) for k in rng.sample(KEYS, rng.randrange(2, 5))])
+    items = [(k, node(1)) for k in rng.sample(KEYS, rng.randrange(2, 5))]
+    # (anchored mappings are not aliased here: an aliased container is ONE node, so a merge into it shows at every alias -
+    # which the anchor-expanded twin cannot express)
+    t = ("map", items)
     return t, defined
 
 
-def expand(t, defs, subst):
+def container_defs(t, out=None):
+    out = {} if out is None else out
+    if t[0] == "anc" and t[2][0] != "s":
+        out[t[1]] = t[2]
+        container_defs(t[2], out)
+    elif t[0] == "map":
+        for _k, v in t[1]:
+            container_defs(v, out)
+    elif t[0] == "seq":
+        for v in t[1]:
+            container_defs(v, out)
+    return out
+
+
+def expand(t, defs, subst, cdefs=None):
     """Anchor-free copy: aliases replaced by the defining value, or by subst[name] when given."""
+    if cdefs is None:
+        cdefs = container_defs(t)
     k = t[0]
+    if k == "anc" and t[2][0] != "s":
+        return expand(t[2], defs, subst, cdefs)
+    if k == "ali" and t[1] in cdefs:
+        return expand(cdefs[t[1]], defs, subst, cdefs)
     if k == "anc":
         return ("s", subst.get(t[1], t[2][1]))
     if k == "ali":
         return ("s", subst.get(t[1], defs[t[1]]))
     if k == "map":
-        return ("map", [(key, expand(v, defs, subst)) for key, v in t[1]])
+        return ("map", [(key, expand(v, defs, subst, cdefs)) for key, v in t[1]])
     if k == "seq":
-        return ("seq", [expand(v, defs, subst) for v in t[1]])
+        return ("seq", [expand(v, defs, subst, cdefs) for v in t[1]])
     return t
 
 
